@@ -36,7 +36,35 @@ def _build(inst, S, K):
     e = ast.PrimaryExpression("a")
     for i in range(inst["depth"]):
         e = ast.ArrayExpression(e, ast.LiteralExpression(K[i], types.Integer()))
-    if inst["pos"] == "read":
+    ctx = inst.get("ctx", "plain")
+    if inst["pos"] == "read" and ctx != "plain":
+        from nsl import op
+        sel = ast.VariableDeclaration(types.ArrayType(types.Integer(), [4]), "sel")
+        pre_stmts = [ast.DeclarationStatement([decl]), ast.DeclarationStatement([sel])]
+        if ctx == "index-of":
+            body = [ast.ReturnStatement(ast.ArrayExpression(ast.PrimaryExpression("sel"), e))]
+        elif ctx == "index-of-index":
+            body = [ast.ReturnStatement(ast.ArrayExpression(ast.PrimaryExpression("sel"), ast.ArrayExpression(ast.PrimaryExpression("sel"), e)))]
+        elif ctx == "index-of-store":
+            body = [ast.ExpressionStatement(ast.AssignmentExpression(ast.ArrayExpression(ast.PrimaryExpression("sel"), e), ast.LiteralExpression(1, types.Integer()))),
+                    ast.ReturnStatement(ast.LiteralExpression(0, types.Integer()))]
+        elif ctx == "operand":
+            body = [ast.ReturnStatement(ast.BinaryExpression(op.Operation.ADD, ast.LiteralExpression(1, types.Integer()), e))]
+        elif ctx == "condition":
+            body = [ast.IfStatement(e, ast.ReturnStatement(ast.LiteralExpression(1, types.Integer()))), ast.ReturnStatement(ast.LiteralExpression(0, types.Integer()))]
+        elif ctx == "initialiser":
+            body = [ast.DeclarationStatement([ast.VariableDeclaration(types.Integer(), "x", e)]), ast.ReturnStatement(ast.PrimaryExpression("x"))]
+        elif ctx == "constructor":
+            body = [ast.ReturnStatement(ast.ArrayExpression(ast.ConstructPrimitiveExpression(types.VectorType(types.Integer(), 2), [e, ast.LiteralExpression(1, types.Integer())])
+                                                            if False else ast.PrimaryExpression("sel"), ast.LiteralExpression(0, types.Integer()))),
+                    ]
+            body = [ast.DeclarationStatement([ast.VariableDeclaration(types.VectorType(types.Integer(), 2), "v",
+                                                                      ast.ConstructPrimitiveExpression(types.VectorType(types.Integer(), 2), [e, ast.LiteralExpression(1, types.Integer())]))]),
+                    ast.ReturnStatement(ast.LiteralExpression(0, types.Integer()))]
+        else:
+            raise ValueError(ctx)
+        stmts = pre_stmts + body
+    elif inst["pos"] == "read":
         stmts = [ast.DeclarationStatement([decl]), ast.ReturnStatement(e)]
     else:
         stmts = [ast.DeclarationStatement([decl]),
@@ -65,6 +93,12 @@ def _source(inst, S, K):
     else:
         t = f"float{S[0]}x{S[0]}"
     acc = "a" + "".join(f"[{K[i]}]" for i in range(inst["depth"]))
+    ctx = inst.get("ctx", "plain")
+    if inst["pos"] == "read" and ctx != "plain":
+        body = {"index-of": f"return sel[{acc}];", "index-of-index": f"return sel[sel[{acc}]];", "index-of-store": f"sel[{acc}] = 1; return 0;",
+                "operand": f"return 1 + {acc};", "condition": f"if ({acc}) return 1; return 0;", "initialiser": f"int x = {acc}; return x;",
+                "constructor": f"int2 v = int2({acc}, 1); return 0;"}[ctx]
+        return f"export function f() -> int {{ {t} a; int[4] sel; {body} }}"
     if inst["pos"] == "read":
         # the element type of the selected value does not matter for acceptance; return it through a local
         return f"export function f() -> void {{ {t} a; {acc}; }}"
@@ -312,6 +346,11 @@ def instances(tier):
     for depth in (1, 2):
         for pos in ("read", "write"):
             out.append(dict(part="bounds", kind="matrix", depth=depth, pos=pos))
+    # the checked access sits inside another expression: as the index of another access, as an operand, condition, initialiser, constructor argument
+    for ctx in ("index-of", "index-of-index", "index-of-store", "operand", "condition", "initialiser", "constructor"):
+        for rank in (1, 2):
+            out.append(dict(part="bounds", kind="array", rank=rank, depth=rank, pos="read", ctx=ctx))
+        out.append(dict(part="bounds", kind="vector", comp="int", depth=1, pos="read", ctx=ctx))
     out += _index_type_instances()
     alpha = "xyzwrgba" + "qs0_X"
     for n in (2, 3, 4):
